@@ -47,14 +47,26 @@ def reg_bc(check):
     sites_1d(check, proj, "REG-BC")
 
 
+class _UserBcDict(dict):
+    """the user's boundary-condition dictionary as the call site may use it: its 'type', and the dictionary as a
+    whole (handed to the boundary function).  Any other key read at the call site is a value the LIBRARY wrote into
+    the user's object (the constructor adding the face direction, an index ...): one dictionary object used for both
+    ends, or re-used for a second discretisation, carries a single value"""
+    def _fd_missing(self, key, func, ln):
+        e = AnalysisError("%s:%d the boundary call site reads key %r of the user's boundary dictionary" % (func.qualname, ln, key))
+        e.violation = ("BC-SITE-DICT", func.qualname, "the call site reads `[%r]` from the user's boundary-condition dictionary (line %d) -- a value the library itself stores there: when one dictionary object serves both ends (bcL is bcR) or is re-used for another discretisation (a mirrored twin built with the dictionaries exchanged), the later write wins and one end gets the other's value (for 'dir': inflow conditions flow out, characteristic outlets keep the wrong invariant)" % (key, ln),
+                       "site-dict-" + str(key), {"C16", "C13", "C01", "C03"})
+        return e
+
+
 def sites_1d(check, proj, rule="REG-BC"):
     """the two namedBC call sites of fvm1d.calc_bc, decoded: which direction, which interior face
     state is handed over, where the result is stored"""
     # 1D call sites, decoded
     D = Disc1D(proj, neq=2, periodic=False)
     A = D.alg
-    D.so.attrs["bcL"] = {"type": "TYPE-L", "tag": "L"}
-    D.so.attrs["bcR"] = {"type": "TYPE-R", "tag": "R"}
+    D.so.attrs["bcL"] = _UserBcDict({"type": "TYPE-L", "tag": "L"})
+    D.so.attrs["bcR"] = _UserBcDict({"type": "TYPE-R", "tag": "R"})
     D.so.attrs["pL"] = [D.stn.input("L0", N + 1), D.stn.input("L1", N + 1)]
     D.so.attrs["pR"] = [D.stn.input("R0", N + 1), D.stn.input("R1", N + 1)]
     calls = []
